@@ -79,6 +79,16 @@ func (s *KeyStore) writeKeyRing(ring *KeyRing) (err error) {
 
 	err = s.pushNewRingState(ring)
 	if err != nil {
+		// The new state has not been stored. Take the applied transactions back out of the in-memory data,
+		// otherwise this KeyRing keeps showing -- and validating further updates against -- a state
+		// that the storage has never seen (e.g., a retried DestroyKey() fails with ErrInvalidState).
+		ring.rollbackPendingTX()
+		// A failed write may still have reached the storage (say, a timed out rename). We hold the lock,
+		// so have a look at what is there now. If that fails too, we stay with the rolled back state.
+		err2 := s.pullRingUpdates(ring)
+		if err2 != nil {
+			s.log.WithError(err2).WithField("path", ring.path).Debug("failed to reload ring data after failed update")
+		}
 		return err
 	}
 
